@@ -19,6 +19,12 @@ import re
 from ..consteval import EnumVal
 from ..symeval import Obj, PureInterp, Raised, Unsupported, tok
 
+
+def _mk_instance(*a, **k):
+    from .evalhelpers import make_instance
+    return make_instance(*a, **k)
+
+
 PROJ = tok("PROJ")
 
 
@@ -263,7 +269,7 @@ def _ops(ctx, mod, cname, cluster, accounting=True):
              "builtins.open": lambda p, mode="r", *a, **k: Obj("file", path=str(p), mode=mode), "attr:write": lambda recv, *a: None}
     interp = PureInterp(ctx, hooks=hooks)
     interp.max_depth = 14
-    obj = Obj("ops", working_dir=PROJ, log_mode="full", accounting_enabled=accounting, target_defaults={}, **{"__class__": ci})
+    obj = _mk_instance(ctx, ci, "ops", working_dir=PROJ, log_mode="full", accounting_enabled=accounting, target_defaults={})
     return ci, interp, obj
 
 
